@@ -14,7 +14,8 @@ RULE = ('scenario: 1..3 per-thread programs (optionally sharing one thread id) o
         'events. Every surviving event is individually in-domain. templates: for every decodable name a fixed set '
         'of 24 window shapes (missing START/END, lookups cut after their first chunk, undecoded nested kinds, ...) '
         'enumerated completely. Oracle: TracesParser.feed_generator + str() of every trace, and '
-        'PyKdebugParser.formatted_traces on the same events as a v2 file (colour on and off), raise nothing. '
+        'PyKdebugParser.formatted_traces on the same events as a v2 file (colour on and off), and the trace and callstack listings '
+        'with generated process / thread / class / subclass filters and column switches (thread map present or absent), raise nothing. '
         'Non-trivial: an edit removed a record that a surviving decoder reads as context (lookup, data record, '
         'string, nested fault/stack record, a START); distinct by the (code, qualifier) sequence.')
 ASSUMPTIONS = ['per-decoder argument domains are the hand-written table vf/domains.py (DESIGN.md 3.2)',
@@ -46,6 +47,28 @@ def run_file(evs, color):
     return sum(1 for line in p.formatted_traces(BudgetReader(blob)))
 
 
+def run_file_options(evs, seed):
+    """the same file through the listings with filters and column switches set: options never make a stream abort"""
+    from pykdebugparser.pykdebugparser import PyKdebugParser
+    recs = [kmodel.ev_record((1000 + 7 * i, tid, (EV.eid(code) & ~3) | q, data)) for i, (tid, code, q, data) in enumerate(evs)]
+    if not recs or recs[0][0] == 0:
+        return 0
+    w = S.expand_words(seed | (1 << 41), 3)
+    tm = [] if w[0] % 5 == 0 else [(evs[0][0], 77, b'proc')]
+    blob = kmodel.v2_file(tm, 0, recs)
+    p = PyKdebugParser()
+    p.color = bool(w[0] & 1)
+    p.filter_process = [None, 'proc', '77', 'nobody', '101', 'P0_x'][w[1] % 6]
+    p.filter_tid = [None, None, evs[0][0], 0x999][w[2] % 4]
+    p.filter_class = [[], [], [4], [0x1f, 7], [1, 3, 4, 0x25, 0x31]][w[3] % 5]
+    p.filter_subclass = [[], [0x040c], [0x040c, 0x040e]][(w[3] >> 8) % 3]
+    for k, sw in enumerate(('show_timestamp', 'show_tid', 'show_process')):
+        setattr(p, sw, bool(w[2] >> (8 + k) & 1))
+    n = sum(1 for line in p.formatted_traces(BudgetReader(blob)))
+    n += sum(1 for line in p.formatted_callstacks(BudgetReader(blob)))
+    return n
+
+
 def hbit(seed, i, mod):
     return S.expand_words(seed | (1 << 40), i)[0] % mod
 
@@ -70,6 +93,7 @@ def prop_scenario(ctx, case):
             dups += 1
     n1 = guard(run_stream, kept)
     n2 = guard(run_file, kept, bool(ed['seed'] & 1))
+    guard(run_file_options, kept, ed['seed'])
     if kept and kept[0] and n1 != n2 and not (kept and kmodel.ev_record((1000, kept[0][0], 0, kept[0][3]))[0] == 0):
         raise Violation('pipeline-disagreement', f'{n1} traces from the event stream, {n2} lines from the same events as a file')
     lost_ctx = any(e[1] in CONTEXT_CODES or e[2] == 1 for e in dropped)
